@@ -64,6 +64,12 @@ def invert_event(ids, cid, c, targets, variant):
             # sample points stored as int8 and further apart than the dtype's positive range
             xa = (50 * np.array(x, dtype=int) - 100).astype(np.int8)
             back = lambda z: (np.asarray(z, dtype=float) + 100.0) / 50.0  # noqa
+        elif variant == 6 and len(x) >= 2 and x[-1] > x[0]:
+            # sample points spread over the whole finite range: the end points at -+2^1023, so that the
+            # distance between two neighbouring points may exceed the largest double
+            mid, half = (x[0] + x[-1]) / 2.0, (x[-1] - x[0]) / 2.0
+            xa = (np.array(x, dtype=float) - mid) / half * 2.0 ** 1023
+            back = lambda z, mid=mid, half=half: np.asarray(z, dtype=float) / 2.0 ** 1023 * half + mid  # noqa
         elif variant == 5:
             # metric values (and targets) of magnitude 1e-200: their squares underflow
             ysc = 1e-200
@@ -78,8 +84,12 @@ def invert_event(ids, cid, c, targets, variant):
         else:
             t = targets[(cid + variant) % len(targets)]
             e["t"] = [list(t)]
-            res = invert_pl_function(xa, ya, t[0] / t[1])
+            # a scalar target: a Python float or a 0-d array
+            res = invert_pl_function(xa, ya, t[0] / t[1] * ysc if cid % 2 else np.asarray(t[0] / t[1] * ysc))
+            ok_ = isinstance(res, np.ndarray)
+            res = back(res) if ok_ else res
             e["out"], e["container_ok"] = rec_solutions(res, 1, True)
+            e["container_ok"] = bool(e["container_ok"] and ok_)
     except Exception as ex:  # noqa
         e["exc"] = f"{type(ex).__name__}: {ex}"[:200]
     return e
@@ -105,6 +115,8 @@ def tam_events(o, cid, g, ids, rnd):
         e = ev("threshold_at_metric", h=1, metric=m, mode=mode, k=0, pts=[], t=ts, out=[], container_ok=True)
         try:
             tgt = ts[0][0] / ts[0][1] if scalar else np.array([t[0] / t[1] for t in ts])
+            if scalar and (cid + j) % 2:
+                tgt = np.asarray(tgt)                 # a scalar target given as a 0-d array
             if mode == "all":
                 res = s.threshold_at_metric(tgt, metric)
             elif mode == "k":
@@ -190,7 +202,7 @@ def run(ctx: core.Ctx):
         nv = 4 if ctx.tier == "thorough" else 2
         for v in range(nv):
             events.append(invert_event(ids, cid, c, targets, (cid + v * (1 + cid % 2)) % 4 if nv == 2 else v))
-        events.append(invert_event(ids, cid, c, targets, 4 + cid % 2))
+        events.append(invert_event(ids, cid, c, targets, 4 + cid % 3))
         if len(set(c["y"])) > 1:
             ctx.nontrivial.add(json.dumps(c, sort_keys=True))
     # threshold_at_metric on Scores objects
